@@ -177,6 +177,7 @@ def _alphabet() -> list[L]:
         L("Simulate", "Simulate", "missing", arg=False),
         L("Simulate off: In1", "Simulate off", "tag"),
         L("Simulate off: Nope", "Simulate off", "undefined-tag"),
+        L("Simulate off: Zz", "Simulate off", "undefined-tag"),          # a short undefined name (no spelling suggestion is attempted)
         L("Simulate off", "Simulate off", "missing", arg=False),
         L("Macro: M", "Macro", "name", True),
         L("Macro", "Macro", "missing", True, arg=False),
